@@ -133,7 +133,7 @@ def replay(kind, K, ops, allowed, variant="plain"):
             r = {"I": engine.iterate, "N": lambda: engine.iterate_n(2), "Z": lambda: engine.iterate_n(0)}[op]()
             ret = "true" if r else "false"
         if live:
-            nrec = engine._count_samples()
+            nrec = len(engine.get_output().t)
             done = bool(engine.is_complete())
             k = int(round(eng.raw_time(engine) / 0.25)) if fixed else None
             o = ("live", k, done, nrec, ret)
